@@ -27,8 +27,16 @@ def gen_case(rng, W, pausable):
     q = []
     nseg = rng.randint(1, 3)
     for seg in range(nseg):
+        # pausable build: sometimes new_recording() is called WHILE recording is paused — it must not resume recording
+        pre_paused = pausable and rng.random() < 0.35
+        if pre_paused:
+            g.paused = True; g.emit("pause")
         g.emit("nr")
         q.append(("empty", len(g.ops), None)); g.emit("tape")
+        if pre_paused:
+            for _ in range(rng.randint(1, 4)):
+                g.statement()
+            g.emit("tape"); g.emit("cont"); g.paused = False
         q.append(("nolists", len(g.ops), None)); g.emit("jac auto mat")
         g.program(rng.randint(2, 18))
         # values are those of plain evaluation (also across paused stretches)
@@ -90,7 +98,10 @@ def oracle_case(ops, meta, il):
     last_pause_tape = None
     for i, o in enumerate(ops):
         if o == "pause":
-            last_pause_tape = il[i + 1]
+            j = i + 1
+            while j < len(ops) and ops[j] != "tape":     # (a new_recording may come between `pause` and the tape dump)
+                j += 1
+            last_pause_tape = il[j] if j < len(il) else None
         elif o == "cont" and last_pause_tape is not None:
             if il[i - 1] != last_pause_tape:
                 return "statements were recorded while recording was paused: %r -> %r" % (last_pause_tape[:120], il[i - 1][:120])
